@@ -29,11 +29,13 @@ def clean():
 
 
 res = {"ran": []}
+# a demonstration that uses the build-tag hook carries "//go:build verif" and must be run with the tag
+TAGS = "-tags verif " if "go:build verif" in open(os.path.join(dst, "demo_test.go")).read() else ""
 demo_dst = os.path.join(SCRATCH, demodir, "zz_seeded_demo_test.go")
 try:
     # demo on the unchanged tree
     shutil.copy(os.path.join(dst, "demo_test.go"), demo_dst)
-    rc, out = sh("go test -count=1 -run 'Seeded|Demo|C[0-9][0-9]' ./%s/" % demodir)
+    rc, out = sh("go test %s-count=1 -run 'Seeded|Demo|C[0-9][0-9]' ./%s/" % (TAGS, demodir))
     res["demo_passes_without_change"] = rc == 0
     os.remove(demo_dst)
     rc, out = sh("git apply %s/patch.diff" % dst)
@@ -42,7 +44,7 @@ try:
     res["existing_tests_pass_with_change"] = rc == 0
     res["ran"].append("git apply patch.diff; go build ./... && go test -count=1 ./...  -> rc %d" % rc)
     shutil.copy(os.path.join(dst, "demo_test.go"), demo_dst)
-    rc, out = sh("go test -count=1 -run 'Seeded|Demo|C[0-9][0-9]' ./%s/" % demodir)
+    rc, out = sh("go test %s-count=1 -run 'Seeded|Demo|C[0-9][0-9]' ./%s/" % (TAGS, demodir))
     res["demo_fails_with_change"] = rc != 0
     res["demo_output_tail"] = out[-600:]
     os.remove(demo_dst)
